@@ -19,16 +19,25 @@
 
    Restart, exactly as coded (one label per atomic effect):
      LCall      wg.Add, new Instance appended to the instance list          (RLoad)
-     LLoadFail  parse / directive setup / MakeServers / OnStartup callback failed:
-                the new instance is discarded, nothing else happened       (-> RIdle, old kept)
-     LLoadOk    -> startServers, first loop over the new servers           (RListen)
+     LLoadFail  parse / directive setup / MakeServers failed (also a plugin's panic, which
+                Restart recovers): the new instance is discarded, nothing else happened
+                                                                           (-> RIdle, old kept)
+     LLoadOk    -> the OnStartup callbacks of the new instance run          (RCb)
+     LCbFail    one of them returns an error: the new instance is discarded; no listener of it
+                exists yet, no acceptor was started                        (-> RIdle, old kept)
+     LCbOk      -> startServers, first loop over the new servers           (RListen)
        LDup        address served by the old instance: old.listener.File() + FileListener
        LBind       address not served by the old instance: Server.Listen() binds a new socket
-       LListenFail ... or fails (address in use): Restart returns the error; descriptors
-                   dup'ed so far are NOT closed (they leak with the discarded instance)
+       LListenFail ... or fails (address in use): startServers closes every listener it has
+                   opened for the new instance (the dup'ed descriptors and the freshly bound
+                   sockets) and Restart returns the error
      LAdv       -> second loop: go s.Serve(ln) for every server             (RSpawn; LSpawn)
      LAdv       -> old.Stop(): for every old server Shutdown = close its descriptor and
                    stop its acceptor                                        (RStop; LStop)
+       LStopTimeout the same, but a connection of the old server outlives the graceful
+                   timeout: Shutdown returns `context deadline exceeded` AFTER having closed
+                   the listener; Instance.Stop logs the error ([EDrain]) and goes on with the
+                   next server; the connection stays with the old instance, which answers it
      LReturn    Restart returns the new instance.
 
    Configuration markers: the configuration given to the n-th Restart call is identified
@@ -70,20 +79,27 @@ Definition set_st (c : conn) (x : cstate) : conn :=
 (* ---- observable history ---- *)
 Inductive event :=
 | ECall (addrs : list nat) (fate : nat)   (* Restart called; fate declared by the configuration:
-                                             0 valid, 1 fails while loading (parse/setup/startup
-                                             callback), 2 fails at listen time *)
-| ERet (r : nat)                          (* Restart returned: 0 ok, 1 load error, 2 listen error *)
+                                             0 valid, 1 fails while loading (parse/setup/
+                                             MakeServers), 2 fails at listen time, 3 fails in a
+                                             startup callback *)
+| ERet (r : nat)                          (* Restart returned: 0 ok, 1 error before listening, 2 listen error *)
 | EStart (k a site : nat)                 (* client k starts a request to site [site] at address a *)
 | EEnd (k : nat) (r : option (nat * nat * bool))
                                           (* client k finished: Some (marker, site, complete) / transport error *)
-| EObs (a : nat) (isopen : bool) (sd : nat). (* listening socket at a: exists?, identity (bind generation) *)
+| EObs (a : nat) (isopen : bool) (sd : nat) (* listening socket at a: exists?, identity (bind generation) *)
+| EDrain (a : nat)                        (* "[ERROR] Stopping <a>: context deadline exceeded" logged by old.Stop() *)
+| EFds (a n : nat).                       (* the process holds n descriptors of the listening socket at a *)
+
+(* what Restart returns for a configuration of the given fate *)
+Definition ret_of_fate (fate : nat) : nat := if Nat.eqb fate 3 then 1 else fate.
 
 Inductive rphase :=
 | RIdle
 | RLoad (n : nat)
 | RListen (n : nat) (todo : list nat)
 | RSpawn (n : nat) (todo : list nat)
-| RStop (n : nat) (todo : list nat).
+| RStop (n : nat) (todo : list nat)
+| RCb (n : nat).
 
 Record state := {
   fdh   : nat -> list nat;        (* address -> instances holding a descriptor of the socket bound there *)
@@ -104,7 +120,9 @@ Inductive label :=
 | LCall (addrs : list nat) (fate : nat)
 | LLoadFail | LLoadOk | LDup | LBind | LListenFail | LAdv | LSpawn | LStop | LReturn
 | LNew (a site : nat) | LConnect (k : nat) | LAccept (k i : nat) | LAnswer (k : nat) | LRecv (k : nat)
-| LObs (a : nat).
+| LObs (a : nat)
+| LCbOk | LCbFail | LStopTimeout
+| LFds (a : nat).
 
 Definition with_rst (s : state) (r : rphase) : state :=
   {| fdh := fdh s; sid := sid s; ext := ext s; acc := acc s; cfgs := cfgs s; cur := cur s;
@@ -125,12 +143,39 @@ Definition with_sid (s : state) (f : nat -> nat) : state :=
   {| fdh := fdh s; sid := f; ext := ext s; acc := acc s; cfgs := cfgs s; cur := cur s;
      rst := rst s; conns := conns s; hist := hist s |}.
 
+Definition accepted_by (x : cstate) : option nat :=
+  match x with CAccepted i | CAnswered i | CDone i => Some i | _ => None end.
+
 (* the last descriptor of the socket at [a] was closed: its accept queue is dropped *)
 Definition reset_queued (a : nat) (cs : list conn) : list conn :=
   map (fun c => match cst c with
                 | CQueued => if Nat.eqb (caddr c) a then set_st c CReset else c
                 | _ => c
                 end) cs.
+
+(* startServers' clean-up when a Listen fails: every descriptor the new instance n holds is
+   closed; a socket that loses its last descriptor (one that n had bound itself) is gone, and
+   with it its accept queue *)
+Definition close_inst (n : nat) (s : state) : state :=
+  let f := fun a => rem n (fdh s a) in
+  with_conns (with_fdh s f)
+    (map (fun c => match cst c with
+                   | CQueued => if isnil (f (caddr c)) then set_st c CReset else c
+                   | _ => c
+                   end) (conns s)).
+
+(* the old instance (cur) holds a connection at address a *)
+Definition old_conn_at (s : state) (a : nat) : bool :=
+  existsb (fun c => Nat.eqb (caddr c) a &&
+                    match accepted_by (cst c) with Some i => Nat.eqb i (cur s) | None => false end) (conns s).
+
+(* http.Server.Shutdown of the old instance's server at address a: its listener descriptor is
+   closed and its acceptor stopped (whether or not the drain then times out); if that was the
+   last descriptor of the socket its accept queue is dropped *)
+Definition stop_old (s : state) (a : nat) : state :=
+  let f := rem (cur s) (fdh s a) in
+  let s1 := with_acc (with_fdh s (upd (fdh s) a f)) (upd (acc s) a (rem (cur s) (acc s a))) in
+  if isnil f then with_conns s1 (reset_queued a (conns s1)) else s1.
 
 Definition step (s : state) (l : label) : option state :=
   match l with
@@ -152,7 +197,17 @@ Definition step (s : state) (l : label) : option state :=
       end
   | LLoadOk =>
       match rst s with
-      | RLoad n => if Nat.eqb (fate_of s n) 1 then None else Some (with_rst s (RListen n (addrs_of s n)))
+      | RLoad n => if Nat.eqb (fate_of s n) 1 then None else Some (with_rst s (RCb n))
+      | _ => None
+      end
+  | LCbOk =>
+      match rst s with
+      | RCb n => if Nat.eqb (fate_of s n) 3 then None else Some (with_rst s (RListen n (addrs_of s n)))
+      | _ => None
+      end
+  | LCbFail =>
+      match rst s with
+      | RCb n => if Nat.eqb (fate_of s n) 3 then Some (with_hist (with_rst s RIdle) (ERet 1)) else None
       | _ => None
       end
   | LDup =>
@@ -177,7 +232,7 @@ Definition step (s : state) (l : label) : option state :=
       | RListen n (a :: t) =>
           if negb (mem a (addrs_of s (cur s))) && (negb (isnil (fdh s a)) || ext s a)
              && Nat.eqb (fate_of s n) 2
-          then Some (with_hist (with_rst s RIdle) (ERet 2))
+          then Some (with_hist (with_rst (close_inst n s) RIdle) (ERet 2))
           else None
       | _ => None
       end
@@ -194,11 +249,15 @@ Definition step (s : state) (l : label) : option state :=
       end
   | LStop =>
       match rst s with
+      | RStop n (a :: t) => Some (with_rst (stop_old s a) (RStop n t))
+      | _ => None
+      end
+  | LStopTimeout =>
+      match rst s with
       | RStop n (a :: t) =>
-          let f := rem (cur s) (fdh s a) in
-          let s1 := with_acc (with_fdh s (upd (fdh s) a f)) (upd (acc s) a (rem (cur s) (acc s a))) in
-          let s2 := if isnil f then with_conns s1 (reset_queued a (conns s1)) else s1 in
-          Some (with_rst s2 (RStop n t))
+          if old_conn_at s a
+          then Some (with_hist (with_rst (stop_old s a) (RStop n t)) (EDrain a))
+          else None
       | _ => None
       end
   | LReturn =>
@@ -259,6 +318,7 @@ Definition step (s : state) (l : label) : option state :=
       | None => None
       end
   | LObs a => Some (with_hist s (EObs a (negb (isnil (fdh s a))) (sid s a)))
+  | LFds a => Some (with_hist s (EFds a (length (fdh s a))))
   end.
 
 Fixpoint run (s : state) (ls : list label) : option state :=
@@ -287,11 +347,9 @@ Definition owner (s : state) : nat :=
 Definition pending (s : state) : option nat :=
   match rst s with
   | RIdle => None
-  | RLoad n | RListen n _ | RSpawn n _ | RStop n _ => Some n
+  | RLoad n | RListen n _ | RSpawn n _ | RStop n _ | RCb n => Some n
   end.
 
-Definition accepted_by (x : cstate) : option nat :=
-  match x with CAccepted i | CAnswered i | CDone i => Some i | _ => None end.
 Definition finished (x : cstate) : bool :=
   match x with CDone _ | CFailed => true | _ => false end.
 Definition lost (x : cstate) : bool :=
@@ -356,7 +414,7 @@ Definition spec_step (p : sp) (e : event) : sp :=
       match sp_pend p with
       | None => sp_fail p
       | Some (addrs, fate) =>
-          if Nat.eqb r fate then
+          if Nat.eqb r (ret_of_fate fate) then
             if Nat.eqb r 0 then
               {| sp_ok := sp_ok p; sp_cur := sp_calls p; sp_addrs := addrs; sp_calls := sp_calls p;
                  sp_pend := None; sp_reqs := sp_reqs p; sp_base := sp_base p; sp_used := false |}
@@ -416,6 +474,15 @@ Definition spec_step (p : sp) (e : event) : sp :=
                sp_base := (a, sd) :: sp_base p; sp_used := sp_used p |}
         end
       else p
+  (* the old server of an address logs a drain timeout only while it is being replaced *)
+  | EDrain a =>
+      match sp_pend p with
+      | Some _ => p
+      | None => sp_fail p
+      end
+  (* how many descriptors the process holds is not part of the property (it is compared with
+     the model's count by [accepts]: a descriptor that leaks is a model/implementation difference) *)
+  | EFds _ _ => p
   end.
 
 Definition spec_scan (a0 : list nat) (evs : list event) : sp := fold_left spec_step evs (sp_init a0).
@@ -472,23 +539,39 @@ Fixpoint accept_waiting (ans : nat -> option nat) (n : nat) (addrs : list nat) (
       end
   end.
 
+Fixpoint stop_until (a : nat) (todo : list nat) : list label :=
+  match todo with
+  | [] => [LStopTimeout]
+  | b :: t => if Nat.eqb b a then [LStopTimeout] else LStop :: stop_until a t
+  end.
+
 Definition labels_for (ans : nat -> option nat) (ret : option nat) (s : state) (e : event) : list label :=
   match e with
   | ECall addrs fate =>
       let n := length (cfgs s) in
       match ret with
       | Some 0 =>
-          LCall addrs fate :: LLoadOk :: listen_labels (addrs_of s (cur s)) addrs
+          LCall addrs fate :: LLoadOk :: LCbOk :: listen_labels (addrs_of s (cur s)) addrs
             ++ [LAdv] ++ map (fun _ => LSpawn) addrs ++ accept_waiting ans n addrs (conns s) 0
       | _ => [LCall addrs fate]
       end
   | ERet r =>
       match r, rst s with
       | 0, RSpawn n _ => LAdv :: map (fun _ => LStop) (addrs_of s (cur s)) ++ [LReturn]
-      | 1, RLoad _ => [LLoadFail]
-      | 2, RLoad n => LLoadOk :: listen_fail_labels s (addrs_of s (cur s)) (addrs_of s n)
+      | 0, RStop n todo => map (fun _ => LStop) todo ++ [LReturn]
+      | 1, RLoad n => if Nat.eqb (fate_of s n) 3 then [LLoadOk; LCbFail] else [LLoadFail]
+      | 2, RLoad n => LLoadOk :: LCbOk :: listen_fail_labels s (addrs_of s (cur s)) (addrs_of s n)
       | _, _ => [LReturn]  (* not enabled: the history is rejected *)
       end
+  (* the old servers are stopped in the order of the old configuration's addresses: those before
+     [a] stop cleanly, the one at [a] times out *)
+  | EDrain a =>
+      match rst s with
+      | RSpawn n _ => LAdv :: stop_until a (addrs_of s (cur s))
+      | RStop n todo => stop_until a todo
+      | _ => [LStopTimeout]  (* not enabled: the history is rejected *)
+      end
+  | EFds a _ => [LFds a]
   | EStart k a site =>
       (* answered later by an instance that binds the address itself: the connect waits for it *)
       LNew a site ::
@@ -525,6 +608,8 @@ Definition event_eqb (x y : event) : bool :=
   | EEnd k (Some (m, s, c)), EEnd k' (Some (m', s', c')) =>
       Nat.eqb k k' && Nat.eqb m m' && Nat.eqb s s' && bool_eqb c c'
   | EObs a o d, EObs a' o' d' => Nat.eqb a a' && bool_eqb o o' && Nat.eqb d d'
+  | EDrain a, EDrain a' => Nat.eqb a a'
+  | EFds a n, EFds a' n' => Nat.eqb a a' && Nat.eqb n n'
   | _, _ => false
   end.
 
